@@ -10,6 +10,8 @@ package main
 import (
 	"bytes"
 	"encoding/binary"
+	"encoding/hex"
+	"encoding/json"
 	"errors"
 	"fmt"
 	"io"
@@ -658,6 +660,23 @@ func c11Corr(rng *rand.Rand) int32 {
 
 // c11RunMatrix drives every advertised (key, version) and every other version in [0, codec max + 2] of every key
 // the codec knows against the server at addr and judges each reply.
+// c11ReplayCase returns the recorded case of a witness written by the given leg (VERIF_REPLAY), if any.
+func c11ReplayCase(leg string) *c11Case {
+	rp := verifkit.Replay()
+	if rp == nil || rp["leg"] != leg {
+		return nil
+	}
+	b, err := json.Marshal(rp["replay"])
+	if err != nil {
+		return nil
+	}
+	var cs c11Case
+	if json.Unmarshal(b, &cs) != nil || cs.RequestHex == "" || cs.Target == "" {
+		return nil
+	}
+	return &cs
+}
+
 // c11Matrix configures one pass over one server.
 type c11Matrix struct {
 	target            string
@@ -669,6 +688,7 @@ type c11Matrix struct {
 	onlyListedKeys    bool           // skip the keys the server does not list at all
 	onlyKeys          map[int16]bool // non-nil: drive only these keys
 	hooks             *c11Hooks
+	replay            *c11Case // non-nil: send only this recorded request (bin/check C11 --replay <witness>)
 }
 
 func c11RunMatrix(r *verifkit.Run, m c11Matrix) {
@@ -751,6 +771,27 @@ func c11RunMatrix(r *verifkit.Run, m c11Matrix) {
 			return m
 		}
 		return 1
+	}
+	if m.replay != nil {
+		rc := *m.replay
+		wire, err := hex.DecodeString(rc.RequestHex)
+		if err != nil || len(wire) < 12 {
+			r.Inconclusive("replay: request_hex of the witness is not usable (truncated in the witness file?)")
+			return
+		}
+		rc.NoReplyOK = !requireReply
+		rc.ReplyHex, rc.Detail = "", ""
+		if hooks != nil && hooks.before != nil {
+			hooks.before()
+		}
+		ex := cl.do(wire, true)
+		if hooks != nil && hooks.after != nil {
+			hooks.after(rc)
+		}
+		resp := c11Judge(r, rc, ex)
+		r.Case(verifkit.Hash(target, wire), resp != nil)
+		r.Sample(map[string]any{"replayed": rc.API, "version": rc.Version, "reply_hex": c11Hex(ex.reply[:min(len(ex.reply), 120)])})
+		return
 	}
 	nAdv, nOther, nUnknown := sc(r.N(10, 150)), sc(r.N(2, 20)), sc(r.N(1, 6))
 	// 1. advertised pairs
